@@ -486,6 +486,10 @@ def run_one_path(ex, c, fnode, is_method, res):
         ex.oblige("raises", f"{exc}:must-raise", z3.Not(ex.to_bool(
             eval_spec_expr(ex, cond, cenv2))), line_end, note=cond)
     cenv = contract_env(ex, c, bound, self_obj, old_self, result)
+    if c.get("no_calls"):
+        ex.oblige_trivial("post", "calls no executor/callback (ghost call log empty)",
+                          len(ex.ctx.ghost_calls) == 0, line_end,
+                          note=f"{len(ex.ctx.ghost_calls)} opaque call(s) on this path")
     for i, e_ in enumerate(c.get("ensures", [])):
         g = ex.to_bool(eval_spec_expr(ex, e_, cenv))
         ex.oblige("post", f"ensures[{i}]", g, line_end, note=e_)
